@@ -147,8 +147,8 @@ func init() {
 						}
 						return nil
 					})
-					if u == nil {
-						continue
+					if u == nil || u.shape == "full-without-identifiers" {
+						continue // (filter-less writes: see the known findings; one shape of them is enough)
 					}
 					w.Logf("write %d %s", i, u.shape)
 					ok, answered := write(srv, cf, u)
